@@ -1,0 +1,18 @@
+//go:build verif
+
+package merkle
+
+import "sync/atomic"
+
+var verifNCPU int64
+
+// VerifSetWorkers overrides the worker count GetMerkleRoot uses to choose its chunking
+// (n <= 0 restores runtime.NumCPU()). Only compiled with the build tag verif.
+func VerifSetWorkers(n int) { atomic.StoreInt64(&verifNCPU, int64(n)) }
+
+func verifWorkers(ncpu int) int {
+	if n := atomic.LoadInt64(&verifNCPU); n > 0 {
+		return int(n)
+	}
+	return ncpu
+}
